@@ -598,6 +598,8 @@ impl<'a> Lexer<'a> {
 
     fn match_loop(&mut self) -> Option<<Self as Iterator>::Item> {
         loop {
+            #[cfg(kepler_5_rrss_verif)]
+            crate::verif_hooks::burn_parse();
             if let Some((start, start_char)) = find_word_start(&mut self.char_indices) {
                 let LexResult {
                     token,
